@@ -179,6 +179,21 @@ pub fn run(tier: Tier) -> i32 {
         run.merge_violations(sw2.violations);
     }
 
+    // ... and inputs that are extreme in one dimension (src/scale.rs): hundreds / a thousand findings of one pattern at column 0,
+    // line numbers and byte offsets beyond 16 bits, a line of more than 65536 bytes, line-end look-alikes
+    {
+        let mut items = crate::scale::line_items(tier == Tier::Thorough);
+        items.extend(crate::scale::width_items(tier == Tier::Thorough));
+        items.extend(crate::scale::string_items(false));
+        let sw3 = refdet::sweep_texts(&items, &crate::dets::all(), refdet::Mode::LocationOnly);
+        for e in &sw3.machinery {
+            run.machinery(e.clone());
+        }
+        run.add("location_checks_scale_programs", sw3.programs);
+        run.add("location_checks_scale_reported_lines", sw3.reported_lines);
+        run.merge_violations(sw3.violations);
+    }
+
     run.set("states", (ts.len() + sw.programs as usize) as u64);
     run.set("transitions", calls_a + calls_l + sw.calls);
     run.set("traces_validated_against_impl", sw.validated);
